@@ -1,0 +1,46 @@
+//go:build verif
+
+package merklize
+
+// Read-only accessors used by the verification harness (/verif). Compiled only
+// with the build tag "verif"; they add no behaviour.
+
+// VerifEntryView is a read-only view of an RDFEntry.
+type VerifEntryView struct {
+	KeyParts  []interface{}
+	Value     interface{}
+	Datatype  string
+	HasHasher bool
+	Hasher    Hasher
+	KeyHasher Hasher
+}
+
+// VerifView returns a read-only view of the entry.
+func (e RDFEntry) VerifView() VerifEntryView {
+	parts := make([]interface{}, len(e.key.parts))
+	copy(parts, e.key.parts)
+	return VerifEntryView{
+		KeyParts:  parts,
+		Value:     e.value,
+		Datatype:  e.datatype,
+		HasHasher: e.hasher != nil,
+		Hasher:    e.hasher,
+		KeyHasher: e.key.hasher,
+	}
+}
+
+// VerifEntries calls fn for every entry stored in the merklizer (map order).
+func (mz *Merklizer) VerifEntries(fn func(mapKey string, e RDFEntry)) {
+	for k, e := range mz.entries {
+		fn(k, e)
+	}
+}
+
+// VerifSafeMode reports the merklizer's safe-mode flag.
+func (mz *Merklizer) VerifSafeMode() bool { return mz.safeMode }
+
+// VerifCompacted returns the compacted document held by the merklizer.
+func (mz *Merklizer) VerifCompacted() map[string]interface{} { return mz.compacted }
+
+// VerifSrcDoc returns the source document bytes held by the merklizer.
+func (mz *Merklizer) VerifSrcDoc() []byte { return mz.srcDoc }
